@@ -29,6 +29,13 @@ def main(argv):
         if kw or os.environ.get("VERIF_REPO"):
             kw.setdefault("write_evidence", 0)      # partial or mutant runs never overwrite the evidence file
         return harness.run_check(argv[1].upper(), argv[2], **kw)
+    if len(argv) == 8 and argv[0] == "shard":
+        import json
+        from sim import harness
+        r = harness.run_shard(argv[1], int(argv[2]), int(argv[3]), argv[4], int(argv[5]), int(argv[6]))
+        with open(argv[7], "w") as f:
+            json.dump(r, f)
+        return 0
     if len(argv) == 2 and argv[0] == "replay":
         from sim import harness
         return harness.replay_file(argv[1])
